@@ -25,11 +25,20 @@ class FlowMixin:
         work = [(st, 0, 0)]  # state, symbolic iterations, total iterations
         while work:
             s, nsym, ntot = work.pop()
-            for s1, t in self.branch(n.test, s, fr):
+            if not hasattr(self, "loop_tests"):
+                self.loop_tests = []
+            self.loop_tests.append((fr.func, n))
+            seq0 = self.seq
+            try:
+                tested = self.branch(n.test, s, fr)
+            finally:
+                self.loop_tests.pop()
+            for s1, t in tested:
                 if isinstance(t, Raised):
                     out.append(("raise", s1, t))
                     continue
-                forked = bool(s1.trace) and s1.trace[-1].kind == "cond" and s1.trace[-1].node is not None and self._within(n.test, s1.trace[-1].node)
+                forked = bool(s1.trace) and s1.trace[-1].kind == "cond" and s1.trace[-1].node is not None and (
+                    self._within(n.test, s1.trace[-1].node) or (s1.trace[-1].loop is not None and s1.trace[-1].loop[1] is n and s1.trace[-1].seq > seq0))
                 # `flag = True; while flag: ..` is `while True` with the exits moved into the flag: its iterations are input-driven too
                 forked = forked or self._is_flag(n.test, s1.envs.get(fr.fid, {}))
                 if not t:
